@@ -107,10 +107,26 @@ TSETS = {
 }
 
 
+KITE_NAMES = [("A", "B", "C"), ("base", "mid", "top"), ("y", "x", "z"), ("dot", "dotaccent", "idotaccent"),
+              ("q", "p", "r"), ("n2", "n1", "n0")]
+
+
 def graph_glyphs(graph, tset, own_contours):
     t = TSETS[tset]
     A = {"width": 500.5, "height": 0, "contours": B.SHAPES["tri"],
          "anchors": [("top", 50.5, 80), ("_bottom", 10, -20.25)]}
+    if graph.startswith("kite"):
+        # top -> [mid, base], mid -> [base]: a glyph that references a composite AND that composite's
+        # own base.  Several namings, because the order in which a set of base names is visited
+        # depends on the names (the hash seed is pinned by ./check).
+        base, mid, top = KITE_NAMES[int(graph[4:])]
+        g = {base: A,
+             mid: {"width": 300, "height": 100, "components": [(base, t[0])], "anchors": [("top", 1, 2)]},
+             top: {"width": 250.5, "height": 0, "components": [(mid, t[1]), (base, t[2])],
+                   "anchors": [("x", -3, 700)]}}
+        if own_contours:
+            g[mid]["contours"] = [SMALLBOX]
+        return g
     if graph == "chain":
         g = {"A": A,
              "B": {"width": 300, "height": 100, "components": [("A", t[0])], "anchors": [("top", 1, 2)]},
@@ -337,8 +353,10 @@ class C15(Property):
                                          "variant": variant, "module": module, "mode": "inplace", "d": dd,
                                          "palette": pp, "sparse": sparse}])
         # -- Transformations on the two small graphs: all option sets x all include subsets
-        for graph in ("chain", "diamond"):
+        for graph in ("chain", "diamond") + tuple("kite%d" % i for i in range(len(KITE_NAMES))):
             for tset in b["tsets"]:
+                if graph.startswith("kite") and tset != b["tsets"][0]:
+                    continue
                 for own in (0, 1):
                     for module in ("ufoLib2", "defcon"):
                         if module == "defcon" and tset not in b["defcon_tsets"]:
